@@ -388,28 +388,20 @@ func matchAll(_ Context, doc bsonkit.Doc, name, path string, v interface{}) erro
 			return ErrNotMatched
 		}
 
-		// check if array contains array
-		if arr, ok := field.(bson.A); ok {
-			matches := true
-			for _, value := range array {
-				ok := false
+		// every value must equal the field itself or, if the field is an
+		// array, one of its elements
+		arr, isArray := field.(bson.A)
+		for _, value := range array {
+			ok := bsonkit.Compare(field, value) == 0
+			if !ok && isArray {
 				for _, element := range arr {
 					if bsonkit.Compare(value, element) == 0 {
 						ok = true
+						break
 					}
 				}
-				if !ok {
-					matches = false
-				}
 			}
-			if matches {
-				return nil
-			}
-		}
-
-		// check if field is in array
-		for _, item := range array {
-			if bsonkit.Compare(field, item) != 0 {
+			if !ok {
 				return ErrNotMatched
 			}
 		}
